@@ -61,10 +61,21 @@ func MonC15() *Mon {
 			if ts <= s.prevTs {
 				w.Fail("C15", fmt.Sprintf("node %d height %d: proposal timestamp %d is not greater than the previous block's %d (clock %d)", n.ID, d.BlockIndex, ts, s.prevTs, n.Now().UnixNano()), "timestamp-not-increasing")
 			}
-			if now >= s.prevTs+inc && ts != now {
+			if n.ReadSkew && len(n.Reads) > 0 {
+				// the clock moved between the reads of this call: the proposal is max(prev+inc, one of the readings truncated)
+				ok := false
+				for _, r := range n.Reads {
+					if ts == max(s.prevTs+inc, uint64(r.UnixNano())/inc*inc) {
+						ok = true
+					}
+				}
+				if !ok {
+					w.Fail("C15", fmt.Sprintf("node %d height %d: proposal timestamp %d is max(prev+inc=%d, reading) for none of the %d clock readings of this call", n.ID, d.BlockIndex, ts, s.prevTs+inc, len(n.Reads)), "timestamp-not-clock")
+				}
+			} else if now >= s.prevTs+inc && ts != now {
 				w.Fail("C15", fmt.Sprintf("node %d height %d: clock truncated to the increment is %d (>= prev+inc %d) but the proposal carries %d", n.ID, d.BlockIndex, now, s.prevTs+inc, ts), "timestamp-not-clock")
 			}
-			if ts > max(s.prevTs+inc, now) {
+			if !n.ReadSkew && ts > max(s.prevTs+inc, now) {
 				w.Fail("C15", fmt.Sprintf("node %d height %d: proposal timestamp %d exceeds max(prev+inc=%d, clock=%d)", n.ID, d.BlockIndex, ts, s.prevTs+inc, now), "timestamp-too-large")
 			}
 			s.ts, s.nonce, s.hashes = ts, nonce, append([]vt.H(nil), hs...)
